@@ -319,6 +319,9 @@ func (vc *FnVC) Script(timeoutMs int, models bool) string {
 		if t.ResBool {
 			rs = "Bool"
 		}
+		if t.ResStr {
+			rs = "String"
+		}
 		fn := q("tbl:" + name)
 		keys := e.tableDomain(t)
 		ids := map[string]int{}
@@ -326,6 +329,9 @@ func (vc *FnVC) Script(timeoutMs int, models bool) string {
 			ids[k.name] = k.id
 		}
 		valOf := func(v string) string {
+			if t.ResStr {
+				return smtString(strings.Trim(v, "\""))
+			}
 			if id, ok := ids[v]; ok {
 				return fmt.Sprint(id)
 			}
